@@ -924,7 +924,7 @@ fn generate(rng: &mut Rng, n: u64, tier: &str, emit: &mut dyn FnMut(Vec<String>)
         }
     }
     // S8: the unwrapped root of `GetBucketLocationOutput` — the member element `LocationConstraint` is the document
-    // (the class `xml-illformed-accepted:document-element`, repaired by d00ca17: the hand-written decoder looped over
+    // (the class `xml-illformed-accepted:document-element`, repaired by 7f2ce46: the hand-written decoder looped over
     // top-level elements). No element at all (nothing, white space, comments, PIs, the XML declaration), exactly one
     // (empty in every spelling = us-east-1, or a constraint), and two in every combination, with and without
     // something between them.
